@@ -301,6 +301,15 @@ def run_history(ctx, case):
     run = Run(case["instance"], case.get("filter"))
     d, r = run.d, run.r
     observers = []
+    late_creation = case["seed"] % 9 == 5 and not case.get("history") and not case.get("huge") \
+        and r.num_ops >= 2
+    if late_creation:
+        # the observers are created on a dispatcher that already holds a partial schedule (as the
+        # library's own rules do with their helper observers); they are judged from the next
+        # reset on, i.e. over episodes in which they are subscribed from the start
+        for _ in range(rng.randint(1, r.num_ops - 1)):
+            o0, m0 = run.choose(rng, "random_ready"); run.dispatch(o0, m0)
+        ctx.count("histories_with_observers_created_on_a_partial_schedule")
     for spec in case["observers"]:
         try:
             ob = make_observer(d, spec)
@@ -353,6 +362,10 @@ def run_history(ctx, case):
             return info
         return step_info
     step_info = make_step_info(r, clock_after_dispatch)
+    if late_creation:
+        if rng.random() < 0.5 and not run.done():
+            o0, m0 = run.choose(rng, "random_ready"); run.dispatch(o0, m0)
+        d.reset(); r.reset()
 
     def state():
         now = r.current_time(run.filter_names) if run.exact_filters else None
